@@ -592,6 +592,44 @@ theorem addItem_read (s : Store) (l : LH) (n : Name) (v : V) (hv : n.valid = tru
     simp only at hn; subst hn
     exact ⟨hall, d1, hi, hcells⟩
 
+/-- FILL_PACKET_SQL (`insert or ignore`) leaves every cell that holds a value as it is: it only appends rows -/
+theorem cell_fillPacket (d : Db) (cid ln row' c : Nat) (k : Str) (row : Nat) (v : V)
+    (h : d.cell c k row = some v) : (d.fillPacket cid ln row').cell c k row = some v := by
+  unfold Db.fillPacket
+  simp only []
+  split
+  · exact h
+  · unfold Db.cell at h ⊢
+    simp only [List.find?_append]
+    cases hf : d.values.find? (fun w => w.cid == c && w.name == k && w.rowNum == row) with
+    | none => simp [hf] at h
+    | some w => simpa [hf] using h
+
+/-- the rows FILL_PACKET_SQL adds are unknown values for (item, row) pairs that had no value -/
+theorem fillPacket_values (d : Db) (cid ln row : Nat) (w : ValueRow) (hw : w ∈ (d.fillPacket cid ln row).values) :
+    w ∈ d.values ∨ (w.cid = cid ∧ w.rowNum = row ∧ d.hasValue cid w.name row = false) := by
+  unfold Db.fillPacket at hw
+  simp only [] at hw
+  split at hw
+  · exact Or.inl hw
+  · rcases List.mem_append.mp hw with h | h
+    · exact Or.inl h
+    · obtain ⟨i, hi, rfl⟩ := List.mem_map.mp h
+      have := (List.mem_filter.mp hi).2
+      exact Or.inr ⟨rfl, rfl, by simpa using this⟩
+
+/-- a cell that holds a value is a value the table has -/
+theorem hasValue_of_cell (d : Db) (cid : Nat) (k : Str) (row : Nat) (v : V) (h : d.cell cid k row = some v) :
+    d.hasValue cid k row = true := by
+  unfold Db.cell at h
+  unfold Db.hasValue
+  cases hf : d.values.find? (fun w => w.cid == cid && w.name == k && w.rowNum == row) with
+  | none => simp [hf] at h
+  | some w =>
+    rw [List.any_eq_true]
+    have hp := List.find?_some (p := isKey cid k row) hf
+    exact ⟨w, List.mem_of_find?_eq_some hf, hp⟩
+
 /-- **cif_loop_add_packet**: on success the loop has a new packet (row) that holds, for every item the packet names, the
     value given -/
 theorem addPacket_read (s : Store) (l : LH) (pkt : List (Str × V)) (hok : (addPacket s l pkt).2 = .ok ()) :
@@ -617,7 +655,8 @@ theorem addPacket_read (s : Store) (l : LH) (pkt : List (Str × V)) (hok : (addP
         | ok d3 =>
           simp only [ha, Except.ok.injEq, Prod.mk.injEq, and_true] at hbody
           subst hbody
-          exact ⟨row, (addValues_cells pkt d1 d3 l.cid l.loopNum row ha).1⟩
+          exact ⟨row, fun e he => cell_fillPacket d3 l.cid l.loopNum row l.cid e.1 row e.2
+            ((addValues_cells pkt d1 d3 l.cid l.loopNum row ha).1 e he)⟩
 
 /-- **cif_pktitr_update_packet**: on success the current packet holds, for every item the update names, the value given;
     every other cell is unchanged -/
@@ -697,9 +736,15 @@ theorem addScalarTail_read (s1 : Store) (l : LH) (key orig : Str) (v : V) (hok :
             simp only [ha, Except.ok.injEq, Prod.mk.injEq, and_true] at hbody
             subst hbody
             intro w hw hc hn'
-            rcases addValues_values [(key, v)] d3 d4 l.cid l.loopNum row' ha w hw with hold | ⟨e, he, hwe⟩
-            · rw [hv3] at hold; exact hall w hold hc hn'
-            · simp only [List.mem_singleton] at he; subst he; rw [hwe]
+            rcases fillPacket_values d4 l.cid l.loopNum row' w hw with hw4 | ⟨_, _, hnone⟩
+            · rcases addValues_values [(key, v)] d3 d4 l.cid l.loopNum row' ha w hw4 with hold | ⟨e, he, hwe⟩
+              · rw [hv3] at hold; exact hall w hold hc hn'
+              · simp only [List.mem_singleton] at he; subst he; rw [hwe]
+            · -- a row added by FILL_PACKET_SQL is not for this item: its cell in the new packet already holds `v`
+              have hcell := (addValues_cells [(key, v)] d3 d4 l.cid l.loopNum row' ha).1 (key, v) (by simp)
+              have := hasValue_of_cell d4 l.cid key row' v hcell
+              rw [hn'] at hnone
+              rw [this] at hnone; cases hnone
     · simp only [hz, Bool.false_eq_true, ↓reduceIte] at hok ⊢
       refine ⟨hall, ?_⟩
       have hpos : 0 < (d1.loopRows l.cid l.loopNum).length := by
